@@ -47,16 +47,17 @@ func Burst(d time.Duration, fs ...func()) bool {
 // Node counts what happens to it. Type() yields the processor so that the
 // library's validation (which calls it) is a scheduling point.
 type Node struct {
-	Name      string
-	T         eventlogger.NodeType
-	Processed atomic.Int64
-	Closed    atomic.Int64
-	Reopened  atomic.Int64
-	Yield     bool
-	Block     chan struct{} // when non-nil Process waits for it to be closed
-	Entered   chan struct{} // when non-nil receives a token on every Process entry (buffered by the test)
-	OnProcess func()
-	OnReopen  func(n int64) error // called with the running count of Reopen calls; its error is returned
+	Name         string
+	T            eventlogger.NodeType
+	Processed    atomic.Int64
+	Closed       atomic.Int64
+	Reopened     atomic.Int64
+	Yield        bool
+	Block        chan struct{} // when non-nil Process waits for it to be closed
+	Entered      chan struct{} // when non-nil receives a token on every Process entry (buffered by the test)
+	OnProcess    func()
+	OnProcessCtx func(ctx context.Context) // like OnProcess, with the context the node was given
+	OnReopen     func(n int64) error       // called with the running count of Reopen calls; its error is returned
 }
 
 func (n *Node) Process(ctx context.Context, e *eventlogger.Event) (*eventlogger.Event, error) {
@@ -69,6 +70,9 @@ func (n *Node) Process(ctx context.Context, e *eventlogger.Event) (*eventlogger.
 	}
 	if n.OnProcess != nil {
 		n.OnProcess()
+	}
+	if n.OnProcessCtx != nil {
+		n.OnProcessCtx(ctx)
 	}
 	if n.Block != nil {
 		<-n.Block
